@@ -189,6 +189,7 @@ def judgeStream (st : St) (obs : List String) : Verdict := Id.run do
     if recorded.any (fun p => p.fields.any (fun kv => kv.2.kind == k)) then brs := addBr brs s!"kind{k}"
   if recorded.any (fun p => p.fields.any (fun kv => match kv.2 with | .str s => s.any (fun c => c == DQ || c == BS) | _ => false)) then brs := addBr brs "string-escapes"
   if recorded.any (fun p => p.fields.any (fun kv => match kv.2 with | .int v => big53 v | _ => false)) then brs := addBr brs "int-beyond-2^53"
+  if recorded.any (fun p => p.fields.any (fun kv => kv.2.hasNL)) then brs := addBr brs "string-with-line-feed"
   if recorded.any (fun p => p.time < 0) then brs := addBr brs "negative-time"
   if mult != 1 then brs := addBr brs "coarse-precision"
   if mult != 1 && recorded.any (fun p => p.time.tdiv mult * mult != p.time) then brs := addBr brs "precision-truncates"
@@ -262,6 +263,9 @@ def judgeSrc (recTime : Bool) (zero : Int) (status : Status) (recorded : List Ba
   if recorded.any (·.byName) then brs := addBr brs "by-name"
   if recorded.any (fun b => b.tags.isEmpty) then brs := addBr brs "no-tags"
   if recorded.any (fun b => b.points.any (fun p => p.tags != b.tags && !p.tags.isEmpty)) then brs := addBr brs "point-extra-tags"
+  if recorded.any (fun b => b.points.any (fun p => b.tags.any (fun kv => match p.tags.lookup kv.1 with | some v => v != kv.2 | none => false))) then brs := addBr brs "point-group-tag-differs"
+  if recorded.any (fun b => b.points.any (fun p => p.time % 1000000000 == 0)) then brs := addBr brs "whole-second-times"
+  if recorded.any (fun b => b.points.any (fun p => p.time % 1000 != 0)) then brs := addBr brs "sub-microsecond-times"
   if recorded.any (fun b => !b.wfTmax) then brs := addBr brs "tmax-before-last-point"
   if recorded.any (fun b => b.points.any (fun p => p.time == b.tmax)) then brs := addBr brs "tmax-equals-last"
   for k in [0, 1, 2, 3] do
